@@ -325,6 +325,36 @@ def fam_misuse(seed, dirs=("fwd", "rev")):
     return out
 
 
+def fam_nested(seed, dirs=("fwd", "rev")):
+    """nested tunnels: the scenario's RPCs run over an inner forward tunnel opened through the outer tunnel (forward
+    or reverse) of the scenario; outer and inner tunnel are opened with DIFFERENT metadata, the RPCs carry their own
+    (or none): handlers and callers must see the inner tunnel's opening metadata, the outer call's peer / interceptor
+    values, the RPC's own request metadata and the inner channel (identity observations as in the metadata family)"""
+    rng = random.Random(seed)
+    out = []
+    for d in dirs:
+        for i, mdname in enumerate(["h1", "multi", "none", "tmo", "empty"]):
+            for shape in ("unary_invoke", "bidi"):
+                cfg = {"dir": d, "nested": True, "tunnelMD": {"authorization": ["Bearer OUTER"], "k1": ["outer"]},
+                       "nestedMD": {"authorization": ["Bearer inner-secret"], "k1": ["inner"], "tenant": ["t-%d" % i]}}
+                md = MD_POOL[mdname]
+                if shape == "unary_invoke":
+                    new = op("invoke", shape="unary", n=7, opts=rng.choice([[], ["hdr", "trl"], ["creds"]]))
+                    rs = {"rpc": 1, "c": {"m": [new]}, "s": {"m": [op("recv"), op("ret", code=0, n=4)]}}
+                else:
+                    new = op("new", shape="bidi", opts=rng.choice([[], ["hdr", "trl"]]))
+                    rs = {"rpc": 1, "c": {"m": [new, op("send", n=9), op("half")], "a": [op("recv"), op("recv")]},
+                          "s": {"m": [op("recv"), op("send", n=5), op("recv"), op("ret", code=0)]}}
+                if md is not None:
+                    new["md"] = md
+                else:
+                    new["opts"] = new.get("opts", []) + ["nomd"]
+                out.append(scenario("nested-%s-%s-%s" % (d, mdname, shape), cfg, [rs, rpc_script(2, "unary_invoke", [3], resp=2)],
+                                    {"kind": rng.choice(["eager", "random", "lazy"]), "seed": rng.randrange(1 << 30), "max": 1500},
+                                    meta={"family": "nested", "done": [1, 2]}))
+    return out
+
+
 def fam_stalled_close(seed, dirs=("fwd", "rev")):
     """the tunnel is closed (or stopped) while a send is stalled inside the transport (bounded carrier, nobody
     delivering): the library must end the tunnel without breaking the transport's usage contract"""
